@@ -2,6 +2,8 @@
 
 package discovery
 
+import "sync"
+
 // Read-only wrappers around unexported pure functions, for the verification harness in /verif.
 
 func VerifEncode(t uint8, tg string, peers []uint16) []byte {
@@ -15,4 +17,115 @@ func VerifDecode(msg []byte) (uint8, string, []uint16, error) {
 
 func VerifPRF(key []byte, x uint16) []byte {
 	return makePRF(key)(x)
+}
+
+// ---- membership synchronisation (C07): a topic registered without running the Synchronize loop, and
+// read-only access to the per-topic state.  Nothing here re-implements library logic: the wrappers call the
+// unexported functions of discovery.go.
+
+// VerifTopic is a handle on one registered topic of a Member.
+type VerifTopic struct {
+	m     *Member
+	topic topic
+	tpv   *topicPeerView
+}
+
+// VerifRegister does what Synchronize does before entering its loop: registerInterestInTopic and
+// precomputeTagsForTopic.
+func (m *Member) VerifRegister(topicBytes []byte) (*VerifTopic, error) {
+	t := topic(topicBytes)
+	tpv, err := m.registerInterestInTopic(t)
+	if err != nil {
+		return nil, err
+	}
+	m.precomputeTagsForTopic(t, hexOf(topicBytes))
+	return &VerifTopic{m: m, topic: t, tpv: tpv}, nil
+}
+
+// VerifTopicOf returns the handle of a topic that a running Synchronize has registered (nil if none).
+func (m *Member) VerifTopicOf(topicBytes []byte) *VerifTopic {
+	v, ok := m.topicsToMemberViews.Load(topic(topicBytes))
+	if !ok {
+		return nil
+	}
+	return &VerifTopic{m: m, topic: topic(topicBytes), tpv: v.(*topicPeerView)}
+}
+
+func hexOf(b []byte) string {
+	const digits = "0123456789abcdef"
+	out := make([]byte, 0, 2*len(b)+8)
+	for _, x := range b {
+		out = append(out, digits[x>>4], digits[x&15])
+	}
+	for len(out) < 8 { // the library logs topicHex[:8]
+		out = append(out, '0')
+	}
+	return string(out)
+}
+
+// MyTag is the tag this member puts on its own messages for the topic.
+func (t *VerifTopic) MyTag() []byte { return []byte(t.m.computeMyTag(t.topic)) }
+
+// MyView calls myMemberViewSorted.
+func (t *VerifTopic) MyView() []uint16 { return []uint16(t.m.myMemberViewSorted(t.topic)) }
+
+// IntersectedView calls intersectedView on the live state.
+func (t *VerifTopic) IntersectedView() []uint16 {
+	return t.m.intersectedView(t.topic, hexOf([]byte(t.topic)), t.tpv)
+}
+
+// VerifFrozen is a copy of memberToView taken at one moment.
+type VerifFrozen struct{ tpv *topicPeerView }
+
+// Freeze copies memberToView (what a Range over it sees at this moment).
+func (t *VerifTopic) Freeze() *VerifFrozen {
+	cp := &sync.Map{}
+	t.tpv.memberToView.Range(func(k, v interface{}) bool {
+		cp.Store(k, v)
+		return true
+	})
+	return &VerifFrozen{tpv: &topicPeerView{
+		receivedMsg:       t.tpv.receivedMsg,
+		memberToView:      cp,
+		responses:         t.tpv.responses,
+		responsesReceived: t.tpv.responsesReceived,
+	}}
+}
+
+// IntersectedViewFrom calls intersectedView with the Range over memberToView served from the frozen copy, while
+// everything the function looks up through the Member (the registered topic state) is live.  With messages handled
+// between Freeze and this call it is the interleaving "HandleMessage lands while intersectedView is running".
+func (t *VerifTopic) IntersectedViewFrom(f *VerifFrozen) []uint16 {
+	return t.m.intersectedView(t.topic, hexOf([]byte(t.topic)), f.tpv)
+}
+
+// Snapshot returns memberToView and the keys of responsesReceived.
+func (t *VerifTopic) Snapshot() (map[uint16][]uint16, []uint16) {
+	views := map[uint16][]uint16{}
+	t.tpv.memberToView.Range(func(k, v interface{}) bool {
+		views[k.(uint16)] = append([]uint16{}, v.([]uint16)...)
+		return true
+	})
+	var responded []uint16
+	t.tpv.responsesReceived.Range(func(k, _ interface{}) bool {
+		responded = append(responded, k.(uint16))
+		return true
+	})
+	return views, responded
+}
+
+// PendingResponses is the number of responses waiting in the channel.
+func (t *VerifTopic) PendingResponses() int { return len(t.tpv.responses) }
+
+// DrainResponses takes every waiting response out of the channel.
+func (t *VerifTopic) DrainResponses() [][]uint16 {
+	var res [][]uint16
+	for {
+		select {
+		case r := <-t.tpv.responses:
+			res = append(res, append([]uint16{}, r...))
+		default:
+			return res
+		}
+	}
 }
